@@ -26,8 +26,10 @@ m = {"version": 1, "setup_cmd": "./setup.sh",
                "source_commits": ["de39150"], "add_only": True},
      "engines": [{"name": "coq-proof+correspondence", "path": "/verif/check",
                   "serves_properties": [c["property_id"] for c in checks],
-                  "kind_free_text": "Coq 8.16.1 theories (coq/theories) proved with full .vo builds; guards regenerated from /repo by gen/; Go harnesses run the real code and the observations are judged inside Coq by vm_compute (model equality and specification oracle)"}],
+                  "kind_free_text": "Coq 8.16.1 theories (coq/theories) proved with full .vo builds; guards regenerated from /repo by gen/; Go harnesses run the real code and the observations are judged inside Coq by vm_compute (model equality and specification oracle)"},
+                 {"name": "system-composition", "path": "/verif/check SYS", "serves_properties": ["C07", "C08", "C09", "C16", "C19"],
+                  "kind_free_text": "extra correspondence run (./check SYS) of the relay that cmd/mocrelay assembles against the composed Coq model System.v; not registered as a property check; its SYS_* theorems are built and counted with C16"}],
      "checks": checks, "not_applicable": na,
-     "notes": "All checks go through ./check (lib/engine.py). VERIF_SEED and VERIF_TIER are honoured. DESIGN.md section 10 describes the system as built."}
+     "notes": "All checks go through ./check (lib/engine.py). VERIF_SEED and VERIF_TIER are honoured. DESIGN.md section 10 describes the system as built. Extra engine (not one of the 20 properties): ./check SYS drives the composed relay of cmd/mocrelay (merge(cache, router, SQLite) + Prometheus) on one connection against System.v (evidence/SYS.json); the ADM_* theorems (gate instantiated with the codec/validator/serializer models) are built and counted with C12."}
 json.dump(m, open(os.path.join(ROOT, "MANIFEST.json"), "w"), indent=1)
 print("claimed:", [c["property_id"] for c in checks])
